@@ -9,8 +9,10 @@ import re
 import shutil
 import subprocess
 
-FUZZ = {"C01": "c01_parse", "C19": "c19_trim", "C03": "c03_slice", "C11": "c11_iter", "C06": "c06_edits", "C07": "c07_revcomp"}
-RUNS = {"c01_parse": 120000, "c19_trim": 120000, "c03_slice": 120000, "c11_iter": 50000, "c06_edits": 50000, "c07_revcomp": 80000}
+FUZZ = {"C01": "c01_parse", "C19": "c19_trim", "C03": "c03_slice", "C11": "c11_iter", "C06": "c06_edits", "C07": "c07_revcomp",
+        "C02": "c02_pairs", "C04": "c04_image", "C10": "c10_order", "C12": "c12_sets", "C18": "c18_serde", "C20": "c20_mask"}
+RUNS = {"c01_parse": 120000, "c19_trim": 120000, "c03_slice": 120000, "c11_iter": 50000, "c06_edits": 50000, "c07_revcomp": 80000,
+        "c02_pairs": 60000, "c04_image": 60000, "c10_order": 80000, "c12_sets": 80000, "c18_serde": 40000, "c20_mask": 80000}
 
 
 def _prepare(drv):
